@@ -1836,17 +1836,10 @@ fn verify_nsec(
         return nsec1_yield(Proof::Bogus, "unsupported response code");
     }
 
-    // The SOA name, if present, must be an ancestor of the query name.  If a SOA is present,
-    // we'll use that as the starting value for next_closest_encloser, otherwise, fall back to
-    // the parent of the query name.
-    let mut next_closest_encloser = if let Some(soa_name) = soa_name {
-        if !soa_name.zone_of(&query.name) {
-            return nsec1_yield(Proof::Bogus, "SOA record is for the wrong zone");
-        }
-        soa_name.clone()
-    } else {
-        query.name.base_name()
-    };
+    // The SOA name, if present, must be an ancestor of the query name.
+    if soa_name.is_some_and(|soa_name| !soa_name.zone_of(&query.name)) {
+        return nsec1_yield(Proof::Bogus, "SOA record is for the wrong zone");
+    }
 
     let have_answer = !answers.is_empty();
 
@@ -1896,17 +1889,19 @@ fn verify_nsec(
         };
     }
 
-    // Identify the names that exist (including names of empty non terminals) that are parents of
-    // the query name. Pick the longest such name, because wildcard synthesis would start looking
-    // for a wildcard record there.
+    // Identify the closest encloser of the query name: the longest name that exists (including
+    // names of empty non terminals) and is a parent of the query name. Wildcard synthesis would
+    // look for a wildcard record there. No name exists between the owner name and the next domain
+    // name of the covering NSEC record, so the closest encloser is the longer one of the names the
+    // query name has in common with these two.
+    let mut next_closest_encloser = Name::root();
     for seed_name in [covering_nsec_name, covering_nsec_data.next_domain_name()] {
         let mut candidate_name = seed_name.clone();
-        while candidate_name.num_labels() > next_closest_encloser.num_labels() {
-            if candidate_name.zone_of(&query.name) {
-                next_closest_encloser = candidate_name;
-                break;
-            }
+        while !candidate_name.zone_of(&query.name) {
             candidate_name = candidate_name.base_name();
+        }
+        if candidate_name.iter().len() > next_closest_encloser.iter().len() {
+            next_closest_encloser = candidate_name;
         }
     }
 
@@ -1968,29 +1963,35 @@ fn verify_nsec(
             .map(|(name, _)| (*name).clone())
     };
 
-    match find_nsec_covering_record(&wildcard_name, nsecs) {
-        // For NXDomain responses, we've already proved the record does not exist. Now we just need to prove
-        // the wildcard name is covered.
-        Some((_, _)) if response_code == ResponseCode::NXDomain && !have_answer => {
-            nsec1_yield(Proof::Secure, "no direct match, no wildcard")
-        }
-        // For wildcard expansion responses, we need to prove there are no closer matches and no exact match.
-        // (RFC 4035 5.3.4 and B.6/C.6)
-        Some((_, _))
-            if response_code == ResponseCode::NoError
-                && have_answer
-                && no_closer_matches(&query.name, soa_name, nsecs, wildcard_base_name.as_ref())
-                && find_nsec_covering_record(&query.name, nsecs).is_some() =>
+    // For wildcard expansion responses, we need to prove there are no closer matches and no exact match.
+    // (RFC 4035 5.3.4 and B.6/C.6) We've already proved the query name does not exist, and identified
+    // its closest encloser. The wildcard the answer was expanded from must be the one at the closest
+    // encloser: then no name, and thus no wildcard, exists between it and the query name.
+    if have_answer {
+        return if response_code == ResponseCode::NoError
+            && wildcard_base_name.as_ref() == Some(&wildcard_name)
         {
             nsec1_yield(
                 Proof::Secure,
-                "no direct match, covering wildcard present for wildcard expansion response",
+                "no direct match, no closer match for wildcard expansion response",
             )
+        } else {
+            nsec1_yield(
+                Proof::Bogus,
+                "answer was not expanded from the wildcard at the closest encloser",
+            )
+        };
+    }
+
+    match find_nsec_covering_record(&wildcard_name, nsecs) {
+        // For NXDomain responses, we've already proved the record does not exist. Now we just need to prove
+        // the wildcard name is covered.
+        Some((_, _)) if response_code == ResponseCode::NXDomain => {
+            nsec1_yield(Proof::Secure, "no direct match, no wildcard")
         }
         // For wildcard no data responses, we need to prove a wildcard matching wildcard_name does not contain
         // the requested record type and that no closer match exists. (RFC 4035 3.1.3.4 and B.7/C.7)
-        None if !have_answer
-            && response_code == ResponseCode::NoError
+        None if response_code == ResponseCode::NoError
             && nsecs.iter().any(|(name, nsec_data)| {
                 name == &&wildcard_name
                     && !nsec_data.type_set().contains(query.query_type)
